@@ -2,6 +2,7 @@ package props
 
 import (
 	"fmt"
+	"go/ast"
 	"go/types"
 
 	"golang.org/x/tools/go/ssa"
@@ -228,17 +229,141 @@ func pcoSubsetJob(w *core.World) Job {
 	}}
 }
 
+// pcoMarshalStepJob: Marshal on a list of ANY length. The loop is cut at its invariant; at the first arrival at the
+// loop head the buffer holds exactly the octet 0x80, and every iteration (checked at the back edge against the state
+// at the head) appends identifier (2 octets, big-endian), length octet and contents of the unit it read and changes
+// nothing else. The returned slice is the buffer. By induction over the iterations (paper step) the result is
+// 0x80 followed by the units in order.
+func pcoMarshalStepJob(w *core.World, base func(fn *ssa.Function, ord int) *sym.LoopSpec) (Job, func(fn *ssa.Function, ord int) *sym.LoopSpec) {
+	mfn := w.Funcs["(*nasConvert.ProtocolConfigurationOptions).Marshal"]
+	named := func(fr *sym.Frame, name string) sym.Value {
+		for _, b := range mfn.Blocks {
+			for _, in := range b.Instrs {
+				if dr, ok := in.(*ssa.DebugRef); ok && !dr.IsAddr {
+					if id, ok := dr.Expr.(*ast.Ident); ok && id.Name == name {
+						if v, ok := fr.Env[dr.X]; ok {
+							return v
+						}
+					}
+				}
+			}
+		}
+		return nil
+	}
+	bufData := func(fx *sym.FnExec, fr *sym.Frame, st *sym.State) (sym.Content, *Term, bool) {
+		p, ok := named(fr, "buffer").(sym.PtrV)
+		if !ok || p.Obj == nil {
+			return nil, nil, false
+		}
+		sv, ok := st.Heap[p.Obj].(sym.StructV)
+		if !ok {
+			return nil, nil, false
+		}
+		data := sv.F[0].(sym.SliceV)
+		if data.Obj == nil {
+			return sym.CZero{W: 8}, data.Len, true
+		}
+		arr := st.Heap[data.Obj].(sym.ArrV)
+		if !data.Off.IsConst() || data.Off.Val != 0 {
+			return nil, nil, false
+		}
+		return arr.C, data.Len, true
+	}
+	name := "(*nasConvert.ProtocolConfigurationOptions).Marshal"
+	loops := func(fn *ssa.Function, ord int) *sym.LoopSpec {
+		ls := base(fn, ord)
+		if fn != mfn || ord != 0 || ls == nil {
+			return ls
+		}
+		ls.OnEntry = func(fx *sym.FnExec, fr *sym.Frame, st *sym.State) {
+			c, n, ok := bufData(fx, fr, st)
+			if !ok {
+				fx.Oblige(st, name+"#entry.header", "inv.init", False, "", "buffer not found at the loop head")
+				return
+			}
+			fx.Oblige(st, name+"#entry.header", "inv.init", And(Eq(n, BVC(64, 1)), Eq(c.Elem(BVC(64, 0)), BVC(8, 0x80))), "", "before the first unit the buffer holds exactly the configuration-protocol octet 0x80")
+		}
+		ls.OnBackEdge = func(fx *sym.FnExec, head *sym.State, headFr *sym.Frame, fr *sym.Frame, st *sym.State) {
+			cH, nH, ok1 := bufData(fx, headFr, head)
+			cS, nS, ok2 := bufData(fx, fr, st)
+			up, ok3 := named(fr, "containerUnit").(sym.PtrV)
+			if !ok1 || !ok2 || !ok3 || up.Obj == nil {
+				fx.Oblige(st, name+"#step", "inv.preserve", False, "", "buffer or unit not found at the back edge")
+				return
+			}
+			u := st.Heap[up.Obj].(sym.StructV)
+			id, ln, cont := u.F[0].(sym.Scalar).T, u.F[1].(sym.Scalar).T, u.F[2].(sym.SliceV)
+			var cc sym.Content = sym.CZero{W: 8}
+			if cont.Obj != nil {
+				cc = st.Heap[cont.Obj].(sym.ArrV).C
+			}
+			g := And(Eq(nS, Add(Add(nH, BVC(64, 3)), cont.Len)),
+				fx.EqContent(cS, BVC(64, 0), cH, BVC(64, 0), nH),
+				Eq(cS.Elem(nH), Extract(15, 8, id)), Eq(cS.Elem(Add(nH, BVC(64, 1))), Extract(7, 0, id)), Eq(cS.Elem(Add(nH, BVC(64, 2))), ln),
+				fx.EqContent(cS, Add(nH, BVC(64, 3)), cc, cont.Off, cont.Len))
+			fx.Oblige(st, name+"#step", "inv.preserve", g, "", "one iteration appends identifier (2 octets, big-endian), length octet and contents of the unit it read; octets written before are unchanged")
+			// the unit and every other object that existed at the head (except the buffer) are unchanged
+			bp := named(fr, "buffer").(sym.PtrV)
+			var gs []*Term
+			for o, v0 := range head.Heap {
+				if o == bp.Obj {
+					continue
+				}
+				if d, ok := head.Heap[bp.Obj].(sym.StructV); ok {
+					if ds, ok := d.F[0].(sym.SliceV); ok && ds.Obj == o {
+						continue
+					}
+				}
+				if v1, ok := st.Heap[o]; ok {
+					gs = append(gs, fx.EqV(v0, v1))
+				}
+			}
+			fx.Oblige(st, name+"#step.frame", "frame", And(gs...), "", "an iteration modifies nothing but the buffer")
+		}
+		return ls
+	}
+	job := Job{Fn: mfn, Spec: &sym.FnSpec{Tag: "any number of units",
+		Requires: func(fx *sym.FnExec, st *sym.State, args []sym.Value) {
+			st.Assume(Not(args[0].(sym.PtrV).Nil))
+		},
+		Post: func(fx *sym.FnExec, entry, exit *sym.State, args []sym.Value, ret sym.Value, ri int) {
+			// the result is the buffer's data
+			rf := fx.RetFrame
+			out := ret.(sym.SliceV)
+			if rf == nil {
+				fx.Oblige(exit, name+"#result", "post", False, "", "no return frame")
+				return
+			}
+			c, n, ok := bufData(fx, rf, exit)
+			if !ok || out.Obj == nil {
+				fx.Oblige(exit, name+"#result", "post", False, "", "buffer not found at the return")
+				return
+			}
+			fx.Oblige(exit, name+"#result", "post", And(Eq(out.Len, n), fx.EqContent(exit.Heap[out.Obj].(sym.ArrV).C, out.Off, c, BVC(64, 0), n)), "", "the returned octets are the buffer's contents")
+		}}}
+	return job, loops
+}
+
 func c16(w *core.World, rep *core.Report) {
 	std(rep)
-	rep.Explain = "PDU session bitmaps: PSIToBooleanArray and PSIToBuf are proved to map bit i%8 of octet i/8 to entry i and back for all 2^16 bitmaps (16-iteration loops executed completely, one symbolic 16-bit state), so both round trips are identities; PDUSessionReactivationResultErrorCauseToBuf interleaves the two inputs (loop invariant with a quantifier over pairs). Protocol configuration options: UnMarshal is total and terminating for every byte string (safety contract with the three-state reader invariant and a weighted variant, as in C14); Marshal layout and the Marshal/UnMarshal round trip are checked for lists of up to 3 / 2 units with symbolic identifiers, lengths 0..255 and contents."
+	rep.Explain = "PDU session bitmaps: PSIToBooleanArray and PSIToBuf are proved to map bit i%8 of octet i/8 to entry i and back for all 2^16 bitmaps (16-iteration loops executed completely, one symbolic 16-bit state), so both round trips are identities; PDUSessionReactivationResultErrorCauseToBuf interleaves the two inputs (loop invariant with a quantifier over pairs). Protocol configuration options: UnMarshal is total and terminating for every byte string (safety contract with the three-state reader invariant and a weighted variant, as in C14); Marshal layout holds for lists of ANY length: at the first arrival at the loop head the buffer is exactly 0x80, every iteration appends identifier (big-endian), length octet and contents of the unit it read and changes nothing else (two-state step relation checked at the back edge from an arbitrary loop-head state), and the result is the buffer; the concatenation over all units follows by induction over the iterations (paper step). In addition the complete layout and the Marshal/UnMarshal round trip are checked on lists of up to 3 / 2 units with symbolic identifiers, lengths 0..255 and contents."
 	// Marshal/UnMarshal harnesses execute the reader loop directly (bounded number of units), without its cut-point
 	base := w.Cx.Loops
 	unroll := map[*ssa.Function]bool{}
 	jobs := ContractJobs(w, rep, []string{"nasConvert.PSIToBooleanArray", "nasConvert.PSIToBuf", "nasConvert.PDUSessionReactivationResultErrorCauseToBuf"})
 	jobs = append(jobs, SafetyJobs(w, rep, []string{"(*nasConvert.ProtocolConfigurationOptions).UnMarshal", "nasConvert.NewProtocolOrContainerUnit", "nasConvert.NewProtocolConfigurationOptions"})...)
 	RunJobs(w, rep, jobs)
-	if fn := w.Funcs["(*nasConvert.ProtocolConfigurationOptions).UnMarshal"]; fn != nil {
-		unroll[fn] = true
+	// Marshal for lists of any length: entry / step / result obligations at the loop cut
+	stepJob, stepLoops := pcoMarshalStepJob(w, base)
+	w.Cx.Loops = stepLoops
+	w.Cx.ElemsNonNil = true
+	RunJobs(w, rep, []Job{stepJob})
+	w.Cx.ElemsNonNil = false
+	w.Cx.Loops = base
+	for _, k := range []string{"(*nasConvert.ProtocolConfigurationOptions).UnMarshal", "(*nasConvert.ProtocolConfigurationOptions).Marshal"} {
+		if fn := w.Funcs[k]; fn != nil {
+			unroll[fn] = true
+		}
 	}
 	w.Cx.Loops = func(fn *ssa.Function, ord int) *sym.LoopSpec {
 		if unroll[fn] {
@@ -258,10 +383,11 @@ func c16(w *core.World, rep *core.Report) {
 	w.Cx.UnwindDrop = false
 	w.Cx.Loops = base
 	rep.Bounded = append(rep.Bounded,
-		core.Bounded{Function: "(*nasConvert.ProtocolConfigurationOptions).Marshal", Bound: fmt.Sprintf("lists of 0..%d units (identifiers, lengths, contents symbolic)", maxM)},
+		core.Bounded{Function: "(*nasConvert.ProtocolConfigurationOptions).Marshal (complete output in one obligation)", Bound: fmt.Sprintf("lists of 0..%d units (identifiers, lengths, contents symbolic); the per-iteration step relation is unbounded", maxM)},
 		core.Bounded{Function: "(*nasConvert.ProtocolConfigurationOptions).UnMarshal contents-from-input", Bound: fmt.Sprintf("arbitrary byte strings (symbolic octets, symbolic length up to 2^20) that parse into at most %d units; paths with more loop iterations are not explored", maxS)},
 		core.Bounded{Function: "(*nasConvert.ProtocolConfigurationOptions).UnMarshal round trip", Bound: fmt.Sprintf("serialised lists of 0..%d units; totality and termination of UnMarshal are unbounded", maxR)})
 	rep.Floor = 60
 	rep.AddUnique(&rep.Assumptions,
+		"Marshal step relation: the units of the list are non-nil pointers (a nil unit makes Marshal panic; such a list is not well-formed) and the length octet is written as stored (LengthOfContents == len(Contents) is the caller's well-formedness condition)",
 		fmt.Sprintf("'never yields contents that are not in the input' is decided for byte strings that parse into at most %d units (bounded harness); beyond that the list is a slice of pointers whose content the engine does not track", maxS))
 }
